@@ -62,7 +62,7 @@ CHECKS.update({
 E4_NOTE = "No environment fault, schedule or interleaving exists at this surface; what is used from deterministic simulation is the reference-model oracle over seeded operation histories with shrinking and replay (model conformance only). API preconditions are respected. The same histories also run under Miri (interp-miri/) as part of the C25 check."
 CHECKS.update({
  "C12": ("adtsim", "exploration", "Seeded histories of push, push_b256, pop, peek, dup, swap, exchange, push_slice (lengths 0..1024*32+64, biased to word boundaries and to the 1024 limit) and set on the real Stack against a Vec<U256> model: equal contents after every operation, underflow/overflow reported exactly when the model says so, and a failed operation leaves the stack unchanged. One case in four is a program of stack instructions only (PUSH0, PUSH1-32 incl. a final PUSHn cut short by the end of the code, POP, DUP1-16, SWAP1-16 and, in an EOF container, DUPN / SWAPN / EXCHANGE with boundary immediates; up to 1100 instructions) executed by the real interpreter loop with the real instruction table under a gas limit that lands the out-of-gas on an arbitrary instruction; final stack, result and gas meter must equal the list model.", E4_NOTE + " push_slice: the last short word is read as the big-endian number of the remaining bytes (unused high-order bytes zero), which is what the shipped unit test pins and PUSHn needs.", "deterministic simulation family used for model conformance: seeded operation histories against a sequential reference model (no fault dimension exists)", "5 C12"),
- "C13": ("adtsim", "exploration", "Seeded histories of record_cost (incl. 0, remaining, remaining+1, u64::MAX), erase_cost of gas charged before, record_refund +/-, set_refund, set_final_refund (London / pre-London) and spend_all on the real Gas meter with limits 0, small, large and u64::MAX against three integers: remaining <= limit, failed charge changes nothing, successful charge reduces remaining by exactly the cost, spent = limit - remaining, final refund = min(refund, spent/q). One case in four is a program of stack instructions run by the real interpreter loop whose gas limit is drawn inside the program's total cost (F2): the charge that fails must leave meter and stack as they were, every successful charge is exactly the instruction's cost.", E4_NOTE + " In the program cases the out-of-gas point is the one fault this surface has.", "deterministic simulation family used for model conformance: seeded operation histories against a sequential reference model (no fault dimension exists)", "5 C12/C13"),
+ "C13": ("adtsim", "exploration", "Seeded histories of record_cost (incl. 0, remaining, remaining+1, u64::MAX), erase_cost of gas charged before, record_refund +/-, set_refund, set_final_refund (London / pre-London) and spend_all on the real Gas meter with limits 0, small, large and u64::MAX against three integers: remaining <= limit, failed charge changes nothing, successful charge reduces remaining by exactly the cost, spent = limit - remaining, final refund = min(refund, spent/q). One case in four is a program of stack instructions run by the real interpreter loop whose gas limit is drawn inside the program's total cost (F2): the charge that fails must leave meter and stack as they were, every successful charge is exactly the instruction's cost. Frame accounting by real code (E1): whole transactions with out-of-gas points, database faults and inspector short-circuits, where the monitor checks at every instruction that remaining <= limit and that remaining never grows inside a frame, and at every frame end that no more gas comes back than the frame was given.", E4_NOTE + " In the program cases the out-of-gas point is the one fault this surface has; the E1 part runs with F1/F2/F3.", "deterministic simulation family used for model conformance: seeded operation histories against a sequential reference model (no fault dimension exists)", "5 C12/C13"),
  "C25": ("interpsim+txsim+miri", "exploration", "E5: the interpreter alone on random byte strings, generated and byte-mutated programs and every shipped EOF container (and mutated copies) that revm's validation accepts, across calldata, gas limits 0..1M, 13 specs and the static flag, with a simulated Host failing at a drawn host-call index and a simulated caller answering every CALL/CREATE/EOFCREATE with a drawn legal outcome; invariants: no panic (debug assertions, overflow checks and revm's assume!/debug_unreachable! are live), the guarded instruction-pointer and free_context hooks never fire, remaining gas <= limit, stack <= 1024, at most gas_limit+2 steps (bounded liveness), a defined final result, FatalExternalError after a failed host call. E1: every monitor oracle on; any panic inside revm during a whole transaction, including under database faults at drawn call indices and inspector short-circuits, is a C25 violation. Miri: the same E5/E4 engines run under cargo miri (4 shards quick, 16 thorough) for undefined behaviour in stack.rs, shared_memory.rs, push, jumps, analysis.", "Trusted: SimHost, the simulated caller, the program generator, Miri. The C libraries and the full Evm cannot run under Miri: memory-safety evidence is limited to the interpreter crate with a simulated host. The input-space half of the property is ordinary seeded generation; what simulation adds is the fault dimension, the hooks as run-time invariants, the deterministic UB executor and the step bound.", "deterministic simulation: seeded programs x host-failure index x simulated sub-call outcomes with hook invariants and a step bound; Miri as deterministic executor for undefined behaviour", "5 C25"),
 })
 CHECKS["C11"] = ("txsim+adtsim",) + CHECKS["C11"][1:3] + ("Trusted: as for the other monitor-mode checks, plus the Vec<Vec<u8>> model of SharedMemory contexts (E4: new_context/free_context/resize_memory/set*/copy/slice histories; growth must cost 3w + w^2/512 and fail without change when gas is short).",) + CHECKS["C11"][4:]
@@ -74,6 +74,7 @@ CHECKS.update({
 })
 
 CHECKS["C06"] = ("journalsim+txsim",) + CHECKS["C06"][1:]
+CHECKS["C13"] = ("adtsim+txsim",) + CHECKS["C13"][1:]
 
 ENGINES = [
  {"name": "wrapsim", "path": "sim/src/e3_wrap.rs", "serves_properties": ["C20"], "kind_free_text": "E3 wrappers mode: query/commit histories over wrapper stacks with per-call fault enumeration"},
@@ -84,7 +85,7 @@ ENGINES = [
  {"name": "twinsim", "path": "sim/src/e1_twin.rs", "serves_properties": ["C22","C28","C31"], "kind_free_text": "E1 twin modes: same history on two differently built systems"},
  {"name": "validsim", "path": "sim/src/e1_valid.rs", "serves_properties": ["C02"], "kind_free_text": "E1 validity mode: boundary-value transactions vs executable validity model, no-trace twin"},
  {"name": "collidesim", "path": "sim/src/e1_collide.rs", "serves_properties": ["C21"], "kind_free_text": "E1 collision matrix over layer stacks"},
- {"name": "txsim", "path": "sim/src/e1_tx.rs", "serves_properties": ["C06","C07","C08","C09","C10","C11","C29","C30","C34"], "kind_free_text": "E1 monitor mode: whole transactions on a live Evm with the monitor inspector, F1/F2/F3 faults"},
+ {"name": "txsim", "path": "sim/src/e1_tx.rs", "serves_properties": ["C06","C07","C08","C09","C10","C11","C13","C25","C29","C30","C34"], "kind_free_text": "E1 monitor mode: whole transactions on a live Evm with the monitor inspector, F1/F2/F3 faults"},
  {"name": "journalsim", "path": "sim/src/e2_journal.rs", "serves_properties": ["C06", "C34"], "kind_free_text": "E2: JournaledState API histories over FaultyDb, snapshot-stack reference model"},
 ]
 
